@@ -42,6 +42,7 @@ def run(index, rep):
         return
     rep.guard(cal_crops, index, rep, start)
     rep.guard(cal_grass, index, rep, start)
+    rep.guard(year1, index, rep)
     rep.guard(loop_rule, index, rep)
     rep.guard(form_fish, index, rep)
     rep.guard(form_crops, index, rep)
@@ -551,6 +552,95 @@ def form_greenhouse(index, rep):
                 ok = len(per_ha) == 1 and len(ar) == 1
     rep.check(ok, rule, "greenhouse crops handed over = yield per hectare x greenhouse area (same lane, same run)",
               "time_consts['greenhouse_crops'] is not the per-hectare yield of each nutrient x the greenhouse area", loc=loc(PARAMS, pf))
+
+
+def year1(index, rep):
+    """year-1 (May-December) ratio: harvest-before-May share hb = the value the code itself states for the listed countries, the first
+    four seasonality shares otherwise; result = 0 if R - hb <= 0, 1 if 1 - hb < 0.25, else (R - hb)/(1 - hb)"""
+    from .rat import feasible
+    from .symx import _Return
+    rule = "C08.Y1"
+    fn = index.func(OC, "OutdoorCrops.get_year_1_ratio_using_fraction_harvest_before_may")
+    names = [a.arg for a in fn.args.args if a.arg != "self"]
+    if len(names) != 3:
+        raise AnalysisError("get_year_1_ratio_using_fraction_harvest_before_may: signature changed")
+    # the country exceptions the code states: `== "XXX"` tests whose arm assigns a number, or a dict literal of code -> number
+    stated = {}
+    for n in ast.walk(fn):
+        if isinstance(n, ast.If) and isinstance(n.test, ast.Compare) and len(n.test.ops) == 1 and isinstance(n.test.ops[0], ast.Eq):
+            code = str_const(n.test.comparators[0]) or str_const(n.test.left)
+            vals = [s_.value.value for s_ in n.body if isinstance(s_, ast.Assign) and isinstance(s_.value, ast.Constant)
+                    and isinstance(s_.value.value, (int, float))]
+            if code and len(code) == 3 and code.isupper() and len(vals) == 1:
+                stated[code] = Fraction(vals[0])
+        if isinstance(n, ast.Dict) and n.keys and all(str_const(k) and len(str_const(k)) == 3 for k in n.keys) and all(
+                isinstance(v, ast.Constant) and isinstance(v.value, (int, float)) for v in n.values):
+            for k, v in zip(n.keys, n.values):
+                stated[str_const(k)] = Fraction(v.value)
+    if len(stated) < 3:
+        raise AnalysisError(f"year-1 ratio: country exceptions not found in the code (found {sorted(stated)})")
+    R = Rat.atom(("R",))
+    seas = PList([Rat.atom(("s", i)) for i in range(12)])
+    neg = {"<": ">=", "<=": ">", ">": "<=", ">=": "<", "==": "!=", "!=": "=="}
+    for code in sorted(stated) + ["XXX"]:
+        def runit(it, code=code):
+            it.call_hook = np_hook
+            env = {"self": Obj(None, {}, "self"), names[0]: R, names[1]: seas, names[2]: code}
+            try:
+                it.exec_block([s_ for s_ in fn.body if not isinstance(s_, ast.Assert)], env)
+            except _Return as r:
+                return r.value
+            return None
+
+        try:
+            leaves = explore(runit, month_classes=False)
+        except Unsupported as e:
+            raise AnalysisError(f"year-1 ratio outside the analysed fragment: {e}")
+        hb = Rat.const(stated[code]) if code in stated else sum((Rat.atom(("s", i)) for i in range(4)), Rat.const(0))
+        n = 0
+        first_bad = None
+        for _, dec, res, it in leaves:
+            if isinstance(res, Abort):
+                continue
+            cons = [(it.pred_exprs[k][0], it.pred_exprs[k][1] if v else neg[it.pred_exprs[k][1]]) for k, v in dec.items() if k in it.pred_exprs]
+            # data assumptions: ratio below 101 (asserted in the code), shares within [0, 1]
+            cons0 = cons + [(hb, ">="), (hb - Rat.const(1), "<=")]
+            if not feasible(cons0):
+                continue
+            n += 1
+            d = R - hb
+            pos = not feasible(cons0 + [(d, "<=")])          # conditions imply R - hb > 0
+            nonpos = not feasible(cons0 + [(d, ">")])        # conditions imply R - hb <= 0
+            small = not feasible(cons0 + [(Rat.const(1) - hb - Rat.const(Fraction(1, 4)), ">=")])   # 1 - hb < 0.25
+            large = not feasible(cons0 + [(Rat.const(1) - hb - Rat.const(Fraction(1, 4)), "<")])    # 1 - hb >= 0.25
+            want = None
+            if nonpos:
+                want = Rat.const(0)
+            elif pos and small:
+                want = Rat.const(1)
+            elif pos and large:
+                want = d / (Rat.const(1) - hb)
+            where = " and ".join(f"{c[0]} {c[1]} 0" for c in cons) or "always"
+            got = it.to_rat(res) if isinstance(res, (Rat, Path)) else None
+            ok = want is not None and got is not None and got == want
+            if not ok and first_bad is None:
+                first_bad = (got, want, where)
+        if n == 0:
+            raise AnalysisError(f"year-1 ratio [{code}]: no feasible path")
+        label = code if code in stated else "other countries"
+        rep.check(first_bad is None, rule, f"year-1 ratio [{label}] on all {n} feasible paths",
+                  f"for {label} the May-December ratio is not derived from harvest-before-May = "
+                  f"{stated[code] if code in stated else 'first four seasonality shares'} (the value the code itself states)" +
+                  (f": got {first_bad[0]}, expected {first_bad[1]} when {first_bad[2]}" if first_bad else ""), loc=loc(OC, fn))
+    # the caller passes year-1 ratio, the seasonality vector and the country code
+    cm = index.func(OC, "OutdoorCrops.calculate_monthly_production")
+    calls = [c for c in walk_no_nested(cm) if isinstance(c, ast.Call) and isinstance(c.func, ast.Attribute)
+             and c.func.attr == "get_year_1_ratio_using_fraction_harvest_before_may"]
+    ok = len(calls) == 1 and len(calls[0].args) == 3 and norm_src(calls[0].args[1]) == "constants_for_params['SEASONALITY']" \
+        and norm_src(calls[0].args[2]) == "constants_for_params['COUNTRY_CODE']"
+    rep.check(ok, rule, "year-1 ratio: called with the seasonality vector and the country code",
+              "calculate_monthly_production does not hand the seasonality vector and the country code to the year-1 helper", loc=loc(OC, cm))
+    rep.require_min(rule, 5)
 
 
 def stock(index, rep, start):
